@@ -101,6 +101,7 @@ type Result struct {
 	Panics      []TaskPanic `json:"panics,omitempty"`
 	Log         []Event     `json:"log,omitempty"`
 	Preempts    int         `json:"preempts"`
+	Strategy    int         `json:"strategy"` // 0 uniform/sticky, 1 PCT-style, 2 starve-one
 	Probes      []int64     `json:"-"`
 }
 
@@ -522,6 +523,7 @@ func (s *Sim) loop() *Result {
 	res.Panics = s.panics
 	res.Log = s.log
 	res.Preempts = s.preempts
+	res.Strategy = s.strategy
 	res.Probes = s.probes
 	s.cur = nil
 	return res
